@@ -933,9 +933,11 @@ func vlDirectVerdict(v reflect.Value, cs string) (verdict string) {
 		t = t.Elem()
 	}
 	var err error
-	if t.Kind() == reflect.Struct {
+	if t.Kind() == reflect.Struct && !t.ConvertibleTo(reflect.TypeOf(time.Time{})) {
 		err = vlDirectValidator.Struct(v.Interface())
 	} else {
+		// a point in time is a VALUE the stated constraints speak about (required, gt, …), not a struct with constrained members:
+		// the validator judges it as a variable (it refuses it as a struct) — defect D25 was the container asking the wrong question
 		err = vlDirectValidator.Var(v.Interface(), cs)
 	}
 	if err != nil {
@@ -7260,8 +7262,8 @@ func vlValueHMDeepCorpus(w *hx.Writer) {
 //     on every one of vlDepStarts fresh starts (flag r; start-unstable / prefix-mismatch / valuepath-other).
 // (3) points in time (sub-harness valueexpr, label time): fields of type time.Time / *time.Time / vlStamp / *vlStamp bound by prefix
 //     from a YAML timestamp or from a text with a `timeLayout` argument, through `${k}`, from a literal; with and without a
-//     validate argument.  The validator applied directly to such a value answers with an error (it does not judge points
-//     in time handed over as a struct): Run fails (validate-iff); a panic is validate-panic.
+//     validate argument.  The validator applied directly to such a value as a VARIABLE gives the verdict on the stated
+//     constraints; Run fails exactly then (validate-iff; before the repair of D25 every such start failed); a panic is validate-panic.
 
 const vlKeyCases = 3
 
